@@ -6,22 +6,31 @@ RULE = ("stateless exploration of the real Reader pipeline under the vsched sche
         "deviation bound 0, four scripts x every fault at bound <= 1 (quick) | <= 2 (thorough) under delay bounding. Oracle per execution: "
         "all threads finished (deadlock/livelock/hang/leaked thread detected by the scheduler), open-descriptor count unchanged, a consumer "
         "that reads to the end gets an exception iff a fault was injected, no data after an exception, no decompressor read after close(), "
-        "delivered objects are a prefix of the fault-free sequence. evaluations = complete schedules; distinct_nontrivial = schedules "
+        "delivered objects are a prefix of the fault-free sequence. Slow-consumer scripts: after 0/1/2 reads the consumer waits until no "
+        "other thread can run (vsched::quiesce(): both queues full, threads blocked), then closes or destroys the Reader - also in a build "
+        "with one object per parser buffer, where the read thread is blocked on the full input queue at that moment. evaluations = complete schedules; distinct_nontrivial = schedules "
         "deviating from the default schedule.")
 DEADLINE = {"quick": 220, "thorough": 1500}
 FLAGS = ["-fno-access-control", "-DOSMIUM_VERIF_INPUT_BUFFER_SIZE=64", "-DOSMIUM_VERIF_PARSER_BUFFER_SIZE=512",
          "-DOSMIUM_VERIF_PBF_BUFFER_SIZE=256"]
 
 
+FLAGS_SAT = ["-fno-access-control", "-DOSMIUM_VERIF_INPUT_BUFFER_SIZE=64", "-DOSMIUM_VERIF_PARSER_BUFFER_SIZE=192",
+             "-DOSMIUM_VERIF_PBF_BUFFER_SIZE=256"]
+
+
 def build(ctx):
     vs = ctx.vsched_obj()
-    return {"h07": ctx.build("h07", ["h07.cpp"], flags=FLAGS, opt="-O1", objects=[vs])}
+    return {"h07": ctx.build("h07", ["h07.cpp"], flags=FLAGS, opt="-O1", objects=[vs]),
+            "h07sat": ctx.build("h07sat", ["h07.cpp"], flags=FLAGS_SAT, opt="-O1", objects=[vs])}
 
 
 def run(ctx):
-    exe = build(ctx)["h07"]
+    exes = build(ctx)
     if getattr(ctx, "build_only", False):
         return
-    ctx.run_harness(exe, [])
+    # slow consumer on a saturated pipeline (tiny parser buffers: parser blocked on the full osmdata queue, read thread on the full input queue)
+    ctx.run_harness(exes["h07sat"], ["--saturate"])
+    ctx.run_harness(exes["h07"], [])
     ctx.assume("sequentially consistent scheduler; no spurious wake-ups; PBF test file written by the library's own Writer "
                "(the expectation is the abstract object list, not the Writer's output)")
